@@ -17,6 +17,9 @@ def run(c):
         "stops (the check has failed; each costs seconds)",
         "an index-only load (PreferIndex) is never what a build runs on (cmd/dawn build and watch load in full; indexTarget.upToDate is "
         "constantly true by design): with PreferIndex only the no-crash judge applies to the run",
+        "the record-level streams stop spawning children after 6 crashed or hung ones (the check has failed; a hang costs its watchdog)",
+        "observation, outside dawn's own call sequences: Run on a Project whose Reload just FAILED dereferences the nil oldEnv of the "
+        "half-loaded target (watch mode and gc never run after a failed Reload); the reused-Project stream follows dawn's sequence",
         "INT text other than canonical decimal: the model answers `either` (Go may accept or reject), so only no-crash is constrained",
     ]
     c.coverage["rule"] = (
@@ -34,7 +37,9 @@ def run(c):
         "SETITEMS of unknown / known keys, APPEND, ADDITEMS, stray MEMOIZE, TUPLE1 … — at every op boundary; value-tree mutants "
         "re-encoded with the real encoder: element dropped / duplicated / swapped / replaced by None, int, str, list, tuple, dict; "
         "entry added; key renamed; host object renamed to each dawn name; root wrapped) — all that still decode to a different "
-        "environment at the last three op boundaries, a seeded sample of 90 (thorough: all) of the rest — plus 48 (all) single-byte shape flips ) N ] -> N ] } True False EMPTY_SET ), each followed "
+        "environment at the last three op boundaries, a seeded sample of 90 (thorough: all) of the rest; and the SAME environment in "
+        "other bytes, every one that still decodes: each op rewritten to its long form (one at a time and all at once; BININT1 also as "
+        "INT text), 1 recorded as 1.0 and back, dict entries reordered, and every single-byte DELETION of the stamp — plus 48 (all) single-byte shape flips ) N ] -> N ] } True False EMPTY_SET ), each followed "
         "by Load+Run in a child process (a child without a result line — Go panic, fatal error, signal — is a crash violation). Non-trivial = Go answers ok; distinct by input.")
     c.prove()
     exe = pc.harness(c)
@@ -65,6 +70,14 @@ def run(c):
                                  "panic / fatal error / signal / hang; after a full load a changed target or source record must lead to "
                                  "a reported error or a re-evaluation", "cases": stats.get("recfile.cases", 0)},
                 hist={k: v for k, v in stats.items() if k.startswith("recfile.")})
+        c.count("recmulti.judge", stats.get("recmulti.cases", 0),
+                sample={"judge": "three packages (root, a, b) with a function target each, loading concurrently; the function record of "
+                                 "EACH target corrupted in turn (stamp not base64 / truncated pickle / foreign value, empty file, '{'), then "
+                                 "(i) a fresh Load + Run, (ii) a Project loaded from the clean state that sees the record go bad: Reload, "
+                                 "Reload, Targets, Reload, Target (or Run twice when the reload succeeds) on the SAME Project; every call "
+                                 "must return: the child's own 10 s watchdog and the parent's 20 s one report a hang as a violation",
+                        "cases": stats.get("recmulti.cases", 0)},
+                hist={k: v for k, v in stats.items() if k.startswith("recmulti.")})
         if stats.get("rec.setup-failed"):
             c.broken.append("record stream: the clean build of the fixture project failed")
         pc.report(c, viols)
